@@ -295,10 +295,25 @@ func (m *Module) validateRegistration(definition ServiceDefinition, presentation
 	if err != nil {
 		return fmt.Errorf("verifiable presentation doesn't match required presentation definition: %w", err)
 	}
-	if len(creds) != len(presentation.VerifiableCredential) {
-		return errPresentationDoesNotFulfillDefinition
+	// All and only the presented credentials must be used to fulfil the Presentation Definition.
+	// A credential can fulfil multiple Input Descriptors (Match then returns it for each of them), so comparing the
+	// number of returned credentials is not enough: every presented credential must be among the matching ones.
+	for _, presented := range presentation.VerifiableCredential {
+		if !containsCredential(creds, presented) {
+			return errPresentationDoesNotFulfillDefinition
+		}
 	}
 	return nil
+}
+
+// containsCredential checks whether the list contains the given credential (same ID and same raw form).
+func containsCredential(list []vc.VerifiableCredential, credential vc.VerifiableCredential) bool {
+	for _, curr := range list {
+		if curr.ID != nil && credential.ID != nil && curr.ID.String() == credential.ID.String() && curr.Raw() == credential.Raw() {
+			return true
+		}
+	}
+	return false
 }
 
 func (m *Module) validateRetraction(serviceID string, presentation vc.VerifiablePresentation) error {
